@@ -17,7 +17,21 @@ from .. import peer as P
 from ..profile import Profile
 
 
-def play_steps(sc, prof, hist, thr=None, interleave=None, mid_comp=None):
+def split_steps(sc, payload, kind, key):
+    """The frame leaves the server in two pieces; the second follows only when the scenario resumes 'rest' (once the client
+    has taken the first piece and waits for more - however long that takes)."""
+    def first(s):
+        sc.run.ev('srv', p=[kind, key], conn=getattr(sc, 'index', None))
+        data = P.frame(payload, s.threshold)
+        s.sent.append(payload)
+        cut = max(1, len(data) // 2)
+        s.notes['rest'] = data[cut:]
+        s.raw(data[:cut])
+        s.notes['split_sent'] = True
+    return [('call', first), ('pause', 'rest'), ('call', lambda s: s.raw(s.notes['rest']))]
+
+
+def play_steps(sc, prof, hist, thr=None, interleave=None, mid_comp=None, split=None):
     """Script steps: login (optionally set-compression), then the play history.  mid_comp = (index, threshold): the
     play-state set-compression packet (protocols up to 47) is sent in front of history item `index`."""
     steps = [('expect', 2)]
@@ -31,7 +45,10 @@ def play_steps(sc, prof, hist, thr=None, interleave=None, mid_comp=None):
     for i, (kind, key, payload) in enumerate(hist):
         if mid_comp is not None and i == mid_comp[0] and prof.c.get('play_compress') is not None:
             steps += [('send', P.VI(prof.c['play_compress']) + P.VI(mid_comp[1])), ('compress', mid_comp[1])]
-        steps.append(sc.tagged(payload, kind, key))
+        if split is not None and i == split:
+            steps += split_steps(sc, payload, kind, key)
+        else:
+            steps.append(sc.tagged(payload, kind, key))
         if kind in ('ka', 'pl'):
             answers += 1
             if interleave and interleave(i):
@@ -97,7 +114,7 @@ def client_obs(p, prof):
     return ['bad', [0]]
 
 
-def execute(version, hist_abs, seed, thr=None, interleave=None, policy=None, chunk='random', mid_comp=None):
+def execute(version, hist_abs, seed, thr=None, interleave=None, policy=None, chunk='random', mid_comp=None, split=None):
     """Run one play session; returns (run, trace for TLC, prof)."""
     from minecraft.networking.packets import Packet
     prof = Profile(version)
@@ -108,7 +125,7 @@ def execute(version, hist_abs, seed, thr=None, interleave=None, policy=None, chu
 
     def factory(idx, sess):
         sc = TracingScript(run, prof, [])
-        sc.steps = play_steps(sc, prof, hist, thr, interleave, mid_comp)
+        sc.steps = play_steps(sc, prof, hist, thr, interleave, mid_comp, split)
         holder['sc'] = sc
         return sc
     run.serve(factory)
@@ -117,6 +134,15 @@ def execute(version, hist_abs, seed, thr=None, interleave=None, policy=None, chu
         c = run.make_connection(allowed_versions={version})
         c.register_packet_listener(lambda p: run.ev('deliver', p=packet_obs(p, prof), play=type(c.reactor).__name__), Packet)
         c.connect()
+        if split is not None:
+            def waits_for_the_rest():
+                nets = [t for t in run.sched.threads if t.kind == 'net']
+                if nets and all(t.finished for t in nets):
+                    return True
+                sc_ = holder.get('sc')
+                return bool(sc_ and sc_.notes.get('split_sent') and len(sc_.session.s2c) == 0 and any(t.waiting_read for t in nets))
+            run.sched.yield_point(blocked_on=waits_for_the_rest)
+            holder['sc'].resume('rest')
     run.go(scenario)
     # project the run's trace onto the contract's events
     ev = []
@@ -397,9 +423,11 @@ def run(chk):
             mid = (hr.randrange(max(1, len(hist) - 1)), hr.choice([0, 1, 64])) if known.index(version) <= known.index(47) else None
             if mid is not None and rep == 0:
                 thr = None
+            # every fourth history has one frame leave the server in two pieces, the second only once the client waits for it
+            split = hr.randrange(len(hist)) if (vi % 4 == 1 and hist and mid is None) else None
             run_, tr, prof = execute(version, hist, seed, thr=thr,
                                      interleave=(lambda j, hr=hr: hr.random() < 0.1),
-                                     policy=None, mid_comp=mid)
+                                     policy=None, mid_comp=mid, split=split)
             chk.traces += 1
             chk.case(('long', version, rep))
             if run_.outcome != 'done':
